@@ -28,7 +28,11 @@ func c04Specs(tier string) []*Spec {
 		}
 		return out
 	}()
+	// ImmutableTrees of later versions held across prunings of earlier ones (no export pin involved)
+	hold := Alpha{Writes: true, NoRemove: true, Save: true, DelTo: true, Hold: true}
 	if tier == "quick" {
+		add("hold/2keys/d7", Cfg{Fast: true, Cache: 1000}, k2, 7, 3, hold, 6)
+		add("hold-nofast/2keys/d7", Cfg{Fast: false, Cache: 0}, k2, 7, 3, hold, 6)
 		add("default/3keys/d6", defaultCfg, k3, 6, 3, full, 40)
 		add("default/2keys-narrow/d8", defaultCfg, k2, 8, 4, narrow, 10)
 		add("flush150/2keys-narrow/d9", Cfg{Fast: true, Flush: 150}, k2, 9, 4, narrow, 25)
@@ -37,6 +41,8 @@ func c04Specs(tier string) []*Spec {
 		}
 		return specs
 	}
+	add("hold/2keys/d9", Cfg{Fast: true, Cache: 1000}, k2, 9, 3, hold, 10)
+	add("hold-nofast/2keys/d9", Cfg{Fast: false, Cache: 0}, k2, 9, 3, hold, 10)
 	add("default/3keys/d8", defaultCfg, k3, 8, 3, full, 60)
 	add("default/2keys-narrow/d11", defaultCfg, k2, 11, 4, narrow, 20)
 	add("flush150/2keys-narrow/d11", Cfg{Fast: true, Flush: 150}, k2, 11, 4, narrow, 30)
